@@ -33,6 +33,24 @@ CHECKS.update({
     ),
 })
 
+CHECKS.update({
+    "C03": dict(
+        text="totality sweep under catch_unwind with debug assertions and overflow checks on: every string over all 256 byte values up to length 2 (x128 configurations) and 3 (x3), every string <=5/6 over the markup alphabet x128 configurations, atom sequences and construct contexts, through Reader and NsReader over slice, buffered (1-byte pieces, whole) and hand-polled async sources; per execution: no panic, Eof within 2*len+3 calls, Eof sticky after Eof / syntax error, positions monotone and bounded, error_position <= buffer_position, every payload accessor of every event invoked",
+        note="in-memory sources never fail (I/O faults are C18); random/mutated long inputs are not sampled",
+        technique=TECH.format(what="input byte strings (full byte alphabet) x configurations x source kinds", oracle="totality invariants checked on every call"),
+    ),
+    "C04": dict(
+        text="operation-history exploration: for every document of <=5/6 tokens over {<a> <ab> <b/> </a> </ab> </a_> </b> x} and each of the 16 initial settings of the four related switches, every history of read_event calls interleaved with <=2/3 switch flips through config_mut() is walked as a prefix-sharing tree over clones of the real reader and compared call by call (event or Mismatched/Unmatched error with payload, buffer and error position) with a Vec<Vec<u8>> stack model",
+        note="names are drawn from a 3-name pool chosen to be prefixes of each other; text trimming/comment checks kept off (irrelevant to the stack)",
+        technique="exhaustive depth-bounded exploration of operation histories (reads x configuration flips) over clones of the real reader against a reference stack model",
+    ),
+    "C08": dict(
+        text="self-consistency on every input of layers A (<=6/7 bytes), C, D (with BOM variants), E: the bytes between the positions before and after each successful read are exactly the event rendered with its fixed delimiters, spans tile the input, Eof position is the length, Writer::write_event over the read events reproduces the input (minus BOM, DOCTYPE keyword canonicalised); the same span identity for the buffered reader on every <=1/2-cut schedule",
+        note="neutral configuration with check_comments off/on as the property states; no reference lexer involved",
+        technique=TECH.format(what="input byte strings (and cut schedules for the buffered source)", oracle="a span/rendering self-consistency invariant and the real Writer"),
+    ),
+})
+
 PENDING_REASON = "check not built yet (work in progress; see DESIGN.md §9 for the order of work)"
 
 ALL = ["C%02d" % i for i in range(1, 21)]
